@@ -531,6 +531,21 @@ func ChildSerial(args []string) int {
 	fmt.Sscan(rest[0], &part)
 	fmt.Sscan(rest[1], &parts)
 	engine := rest[2]
+	if engine == "httpserial" {
+		// real clients over TLS against the in-process server, one series at a time, so that
+		// every goroutine serving a connection belongs to the series' own shells
+		n, gensPer := httpSerialCounts(r)
+		for i := part; i < n; i += parts {
+			if r.Want(engine, i) {
+				httpSeries(r, engine, i, gensPer, true)
+			}
+		}
+		if err := r.DumpChild(dump); err != nil {
+			fmt.Fprintln(os.Stderr, err)
+			return 2
+		}
+		return 0
+	}
 	list := seriesList(r, engine)
 	for i := part; i < len(list); i += parts {
 		if !r.Want(engine, i) {
@@ -574,12 +589,16 @@ func seriesList(r *mon.Run, engine string) [][]Gen {
 }
 
 func Run(r *mon.Run) {
-	r.Rule = "one broker per series; a series is a sequence of shell generations with fresh IDs; each generation is a point of the cross product {uni,bidir} x {full,in-only,out-only} x {idle,input burst,output flood,output flood with the operator's terminal stalled,the same with the stream ending by itself behind a queue that is exactly full} x {which direction ends first} x {ctx cancel, writer error, flush error, reader EOF, reader error, data+error} x {alone, both ending together with either release order}; the gate scheduler drives each release section, a marker line through the operator channel closes each generation's window, then notices/events/log records are counted, the next shell must attach and pass an I/O probe, and (in serial child processes) a goroutine dump is scanned for anything still inside internal/iobroker. every second series has a third event listener with room for 1-3 events that looks at them only every 1-3 ms and must receive the same events in the same order. distinct = distinct generation parameter tuples executed"
-	r.Assumptions = []string{"goroutine-leak scans run in child processes that execute one series at a time", "listener events are awaited (bounded) before shutdown; nothing is asserted about events around shutdown"}
+	r.Rule = "one broker per series; a series is a sequence of shell generations with fresh IDs; each generation is a point of the cross product {uni,bidir} x {full,in-only,out-only} x {idle,input burst,output flood,output flood with the operator's terminal stalled,the same with the stream ending by itself behind a queue that is exactly full} x {which direction ends first} x {ctx cancel, writer error, flush error, reader EOF, reader error, data+error} x {alone, both ending together with either release order}; the gate scheduler drives each release section, a marker line through the operator channel closes each generation's window, then notices/events/log records are counted, the next shell must attach and pass an I/O probe, and (in serial child processes) a goroutine dump is scanned for anything still inside internal/iobroker. every second series has a third event listener with room for 1-3 events that looks at them only every 1-3 ms and must receive the same events in the same order. " +
+		"http / httpserial engines: hsrv in-process on real TLS with fake shells over raw connections; per generation {/i+/o, /io} x {full, in-only, out-only} x {idle, output flood, input burst} x {client closes / resets input or output, output ends by itself (last chunk, or the last of the declared bytes), both closed} x output transport class {chunked upload, upload with a declared Content-Length of which 1 B..256 KiB is still outstanding when the shell ends, the same with more than 256 KiB (up to 1 TiB) outstanding}; after the gone notice, the re-printed help and the Disconnected records, every request the client has not dropped itself is watched FROM THE CLIENT SIDE: without the client sending another byte the server must answer it completely or let go of its connection within the progress bound (20 s); httpserial runs the same series one at a time in child processes and, after the client has closed its connections, requires that no net/http per-connection goroutine, shell handler or broker goroutine is left. " +
+		"backlog engine: on one broker with two prompt event listeners and a third one that stops reading its channel (capacity EVChanLen, or 1/8/128) from the start or after 1-150 shells, more minimal shells (full /i+/o with either attach order, bidirectional, half attached; ended by output EOF, output error, cancellation of either side) come and go in series than undelivered events fit anywhere (listener channel + broker queue + 1: > 1100 shells for an EVChanLen channel); the shells are driven from their own goroutine; when the driver stops making progress (the broker may wait for the listener) or is through, the listener reads again; then the series must get through, and every listener must have received exactly the events the shells' history dictates (connected iff fully attached, one disconnected per shell), in order, and the operator one ready / one gone notice per shell. distinct = distinct generation parameter tuples executed"
+	r.Assumptions = []string{"goroutine-leak scans run in child processes that execute one series at a time", "listener events are awaited (bounded) before shutdown; nothing is asserted about events around shutdown",
+		"http engines: a request counts as ended when its response has arrived completely or the connection has been closed/reset by the server; a keep-alive connection left idle after a complete response is not held against the server; the 20 s bound on that is a progress bound of the property itself ('without needing further traffic')",
+		"backlog engine: a broker that makes a shell wait while a listener does not read is not held against it; the no-progress detector (750 ms) only decides when the paused listener resumes, the verdict is on the complete event sequences afterwards and on the series getting through once every listener reads (no progress for 20 s = violation)"}
 	cp := crossProduct()
 	r.Count("cross_product_points", int64(len(cp)))
 	parts := runtime.NumCPU()
-	for _, engine := range []string{"cross", "series"} {
+	for _, engine := range []string{"cross", "series", "httpserial"} {
 		if !r.WantEngine(engine) {
 			continue
 		}
@@ -590,6 +609,7 @@ func Run(r *mon.Run) {
 			}
 		})
 	}
+	r.Logf("serial children done")
 	if r.WantEngine("window") {
 		windowCases(r)
 	}
@@ -598,6 +618,15 @@ func Run(r *mon.Run) {
 	}
 	if r.WantEngine("http") {
 		httpGenerations(r)
+	}
+	r.Logf("http done")
+	if r.WantEngine("backlog") {
+		backlogCases(r)
+	}
+	r.Logf("backlog done")
+	if r.WantEngine("httpserial") && !r.Replaying() {
+		n, gensPer := httpSerialCounts(r)
+		r.Floor("httpserial_leak_scans", int64(n*gensPer*8/10))
 	}
 	r.Floor("generations_judged", 200)
 	r.Floor("leak_scans", 200)
